@@ -24,7 +24,7 @@ def mc_cfg(ab=False, n=2, rich=False, invs=INVS):
     return dict(constants=dict(MaxPlugins=n, AbortOnFirstFailure=ab, Rich=rich), invariants=invs, deadlock=False)
 
 
-def run_case(wd, plugins):
+def run_case(wd, plugins, span_first=False):
     """plugins: list of model records. Returns dict(loaded=[idx..], called={idx: sorted callbacks}, ...)."""
     import deep.api.plugin as plugin_mod
     from deep.api.plugin import Plugin
@@ -83,7 +83,9 @@ def run_case(wd, plugins):
                                    metrics=[Metric(name='m', type=MetricType.COUNTER)])
             tpc = TracePointConfig(ID='C', path=base, line_number=marks['beat'],
                                    args=dict(inf, snapshot='no_collect', span='line'))
-            return PollResponse(ts_nanos=1, current_hash='h', response=[tpa, tpb, tpc],
+            # the order of the tracepoints of the line is the order their results are processed in: the span (whose
+            # completion is deferred to the end of the line) before or after the log
+            return PollResponse(ts_nanos=1, current_hash='h', response=[tpc, tpa, tpb] if span_first else [tpa, tpb, tpc],
                                 response_type=ResponseType.UPDATE)
         chan.script('/poll', poll)
         chan.script('/send', lambda req: sent.append(req) or None)
@@ -231,14 +233,14 @@ def run(c):
     c.states += r_pin.distinct
     c.transitions += r_pin.generated
     finals = pinned + [beh[-1][2] for beh in sim.behaviours]
-    for final in finals:
+    for idx, final in enumerate([f for f in pinned for _ in (0, 1)] + finals[len(pinned):]):
         if final['phase'] != 8:
             continue
         plugins = to_json(final['plugins'])
-        real = run_case(wd, plugins)
+        real = run_case(wd, plugins, span_first=(idx % 2 == 1))
         problems = compare(final, real)
         c.traces_validated += 1
-        c.note_case(key=('plugins', str(plugins)),
+        c.note_case(key=('plugins', str(plugins), idx % 2),
                     nontrivial=any(p['faults'] or p['load'] != 'ok' for p in plugins))
         if len(c.samples) < 3:
             c.sample({'direction': 'S2C', 'module': 'Plugins', 'plugins': plugins,
